@@ -220,11 +220,48 @@ def swapcase(labels, r):
     return [l.upper() if r.random() < 0.5 else l.lower() for l in labels]
 
 
+def long_track_probe(ctx, seg):
+    """One long, finely sampled track (76 800 frames, one cell of the contingency
+    table above 2^15.5): the ARI from exact integer pair counts."""
+    fs = 2.0 ** -7
+    riv = np.array([[0.0, 500.0], [500.0, 600.0]])
+    eiv = np.array([[0.0, 480.0], [480.0, 600.0]])
+    rlab, elab = ["A", "B"], ["x", "y"]
+    cells = [[61440, 2560], [0, 12800]]          # frames k * 2^-7, k < 76800
+    c2 = lambda x: x * (x - 1) // 2              # noqa: E731
+    sij = sum(c2(x) for row in cells for x in row)
+    sa = sum(c2(sum(row)) for row in cells)
+    sb = sum(c2(sum(col)) for col in zip(*cells))
+    tot = c2(76800)
+    from fractions import Fraction as Fr
+    exp_ = Fr(sa * sb, tot)
+    want = float((sij - exp_) / (Fr(sa + sb, 2) - exp_))
+    for args, w, what in (((riv, rlab, eiv, elab), want, "two-by-two"),
+                          ((riv, rlab, riv.copy(), list(rlab)), 1.0, "identical")):
+        try:
+            with warnings.catch_warnings():
+                warnings.simplefilter("ignore")
+                got = float(seg.ari(*args, frame_size=fs))
+        except Exception as e:  # noqa: BLE001
+            got = e
+        ctx.ev()
+        ctx.count("contract.long_track_ari")
+        if isinstance(got, Exception) or not abs(got - w) <= 1e-9:
+            ctx.violation("C16/segment.ari/differs-from-definition/long-track",
+                          "differs-from-definition", "segment.ari",
+                          "76 800-frame track (%s): ari = %r, exact pair counts give %r" % (
+                              what, got, w),
+                          {"kind": "call", "fn": "segment.ari", "args": args,
+                           "kwargs": {"frame_size": fs}})
+
+
 def run_shard(spec, ctx):
     mods = env.load_repo()
     install(ctx, mods)
     seg = mods["segment"]
     r = ctx.rng("cluster")
+    if spec["name"].endswith("-0"):
+        long_track_probe(ctx, seg)
     for i in range(spec["n"]):
         riv, rlab, eiv, elab, fs = gen_pair(r)
         beta = r.choice([1.0, 0.25, 2.0])
